@@ -736,4 +736,190 @@ Proof using.
     + apply (Hrej FBug); [reflexivity|discriminate].
 Qed.
 
+(** * Peek returns the bytes the next reads will return *)
+Lemma dtake_nonpos k (d : list Z) : k <= 0 -> dtake k d = [].
+Proof. intros. unfold dtake. replace (Z.to_nat k) with 0%nat by lia. reflexivity. Qed.
+
+Lemma crest_nonneg s : RSInv s -> 0 <= crest s.
+Proof.
+  intros R. unfold crest. destruct (nonnil_dec (cur s)) as [E|E]; [rewrite E; lia|].
+  destruct (v_cur _ R E) as ((?&?)&_). destruct (cur s); [congruence|]. lia.
+Qed.
+
+Lemma rest_slice s : RSInv s -> cur s <> [] -> dskip (rpif s) (cur s) = slice S (rpos s) (crest s).
+Proof.
+  intros R Hne. destruct (v_cur _ R Hne) as ((A&B)&C). pose proof (v_pos _ R) as P.
+  rewrite (crest_nonnil _ Hne) in *. remember (len (cur s)) as L. rewrite C.
+  rewrite dskip_slice by lia. f_equal. lia.
+Qed.
+
+Lemma tail_eof s : RSInv s -> (curIsLast s = true -> crest s = 0) ->
+  curIsLast s || (finalOffset s <=? rpos s) = true -> fc_final s = true /\ rpos s = finalOffset s.
+Proof.
+  intros R Hl H. pose proof (v_pos _ R) as P. pose proof (v_rp_high _ R) as Q.
+  pose proof (crest_nonneg _ R) as Hc. pose proof (v_final _ R) as VF. pose proof (v_win _ R) as VW.
+  apply orb_prop in H. destruct H as [H|H].
+  - destruct (RSInv_last _ R H) as (A&B). specialize (Hl H). split; auto. lia.
+  - apply Z.leb_le in H. destruct (fc_final s); [split; auto; lia|lia].
+Qed.
+
+Definition peekBody (s1 : rstream) (n : Z) : rstream * list Z * rerr * bool :=
+  let tailr := if curIsLast s1 || (finalOffset s1 <=? rpos s1) then (s1, [], EEOF, false) else (s1, [], EWouldBlock, false) in
+  if (match cur s1 with [] => false | _ => true end) && (rpif s1 <? len (cur s1)) then
+    let avail := len (cur s1) - rpif s1 in
+    let rest := dskip (rpif s1) (cur s1) in
+    if n <=? avail then (s1, dtake n rest, ENil, false) else
+    let offset := rpos s1 + avail in
+    match Peek (sorter s1) offset (n - avail) with
+    | Some d => (s1, rest ++ d, ENil, false)
+    | None =>
+      if curIsLast s1 then (s1, rest, EEOF, false) else
+      let viaReset :=
+        if cancelledRemotely s1 && (reliableSize s1 <? rpos s1 + n) then
+          let total := reliableSize s1 - rpos s1 in
+          let needed := total - avail in
+          if needed <=? 0 then Some (dtake total rest)
+          else match Peek (sorter s1) offset needed with Some d => Some (rest ++ d) | None => None end
+        else None in
+      match viaReset with
+      | Some d => (s1, d, cancel_rerr s1, false)
+      | None =>
+        let viaFin :=
+          if finalOffset s1 <? rpos s1 + n then
+            let total := finalOffset s1 - rpos s1 in
+            let needed := total - avail in
+            if needed <=? 0 then Some (dtake total rest)
+            else match Peek (sorter s1) offset needed with Some d => Some (rest ++ d) | None => None end
+          else None in
+        match viaFin with
+        | Some d => (s1, d, EEOF, false)
+        | None => tailr
+        end
+      end
+    end
+  else tailr.
+
+Lemma peekImpl_unfold s n :
+  peekImpl s n =
+  if curIsLast s && (match cur s with [] => true | _ => false end) then (s, [], EEOF, false) else
+  if cancelledLocally s || remoteEffective s then (s, [], cancel_rerr s, false) else
+  if shutdown s then (s, [], EShutdown, false) else
+  let '(s1, bug) := if (match cur s with [] => true | _ => false end) || (len (cur s) <=? rpif s)
+                    then dequeue s else (s, false) in
+  if bug then (s1, [], ENil, true) else peekBody s1 n.
+Proof using. reflexivity. Qed.
+
+Definition PeekPost (s1 : rstream) (n : Z) (out : rstream * list Z * rerr * bool) : Prop :=
+  let '(sx, d, e, b) := out in
+  sx = s1 /\ b = false /\ d = slice S (rpos s1) (len d) /\ len d <= n /\ (e = ENil -> len d = n) /\
+  (e = EEOF -> fc_final s1 = true /\ rpos s1 + len d = finalOffset s1).
+
+Lemma peekBody_spec s1 n : RSInv s1 -> 0 < n -> remoteEffective s1 = false ->
+  PeekPost s1 n (peekBody s1 n).
+Proof.
+  intros R Hn Hre. unfold peekBody.
+  pose proof (v_pos _ R) as P. pose proof (v_rp_high _ R) as Q. pose proof (crest_nonneg _ R) as Hc.
+  pose proof (v_final _ R) as VF. pose proof (v_win _ R) as VW.
+  assert (Htail : (curIsLast s1 = true -> crest s1 = 0) ->
+     PeekPost s1 n (if curIsLast s1 || (finalOffset s1 <=? rpos s1) then (s1, [], EEOF, false) else (s1, [], EWouldBlock, false))).
+  { intros Hl. destruct (curIsLast s1 || (finalOffset s1 <=? rpos s1)) eqn:E; unfold PeekPost; rewrite len_nil.
+    - destruct (tail_eof _ R Hl E) as (A&B). repeat split; auto; try lia; discriminate.
+    - repeat split; auto; try lia; discriminate. }
+  destruct ((match cur s1 with [] => false | _ => true end) && (rpif s1 <? len (cur s1))) eqn:Ecur.
+  2:{ apply Htail. intros _. apply andb_false_iff in Ecur. destruct Ecur as [E|E].
+      - unfold crest. destruct (cur s1); [reflexivity|discriminate].
+      - apply Z.ltb_ge in E. apply crest_zero; auto. }
+  apply andb_prop in Ecur as [E1 E2]. apply Z.ltb_lt in E2.
+  assert (Hne : cur s1 <> []) by (destruct (cur s1); [discriminate|congruence]).
+  pose proof (rest_slice _ R Hne) as Hrest. pose proof (crest_nonnil _ Hne) as Hcr.
+  cbv zeta. rewrite Hrest. rewrite <- Hcr.
+  assert (Hcpos : 0 < crest s1) by lia.
+  destruct (Z.leb_spec n (crest s1)).
+  { unfold PeekPost. rewrite dtake_slice by lia. rewrite len_slice by lia. repeat split; auto; try lia; discriminate. }
+  destruct (Peek (sorter s1) (rpos s1 + crest s1) (n - crest s1)) as [d1|] eqn:EP1.
+  { destruct (Peek_spec S _ _ _ _ (v_inv _ R) EP1 ltac:(lia)) as (Hd1&_).
+    unfold PeekPost. rewrite Hd1. rewrite <- slice_app by lia. replace (crest s1 + (n - crest s1)) with n by lia.
+    rewrite len_slice by lia. repeat split; auto; try lia; discriminate. }
+  destruct (curIsLast s1) eqn:El.
+  { destruct (RSInv_last _ R El) as (A&B). unfold PeekPost. rewrite len_slice by lia.
+    repeat split; auto; try lia; discriminate. }
+  (* via the reliable size of a reset *)
+  match goal with |- context [match ?X with Some d => (s1, d, cancel_rerr s1, false) | None => _ end] => destruct X as [d2|] eqn:Evr end.
+  { assert (Hd2 : exists total, 0 < total < n /\ d2 = slice S (rpos s1) total).
+    { destruct (cancelledRemotely s1 && (reliableSize s1 <? rpos s1 + n)) eqn:Ec; [|discriminate].
+      apply andb_prop in Ec as [Ec1 Ec2]. apply Z.ltb_lt in Ec2.
+      unfold remoteEffective in Hre. rewrite Ec1 in Hre. simpl in Hre. apply Z.leb_gt in Hre.
+      exists (reliableSize s1 - rpos s1). split; [lia|].
+      destruct (Z.leb_spec (reliableSize s1 - rpos s1 - crest s1) 0).
+      - inversion Evr. rewrite dtake_slice by lia. reflexivity.
+      - destruct (Peek (sorter s1) (rpos s1 + crest s1) (reliableSize s1 - rpos s1 - crest s1)) as [d3|] eqn:EP3; [|discriminate].
+        destruct (Peek_spec S _ _ _ _ (v_inv _ R) EP3 ltac:(lia)) as (Hd3&_). inversion Evr.
+        rewrite Hd3. rewrite <- slice_app by lia. f_equal. lia. }
+    destruct Hd2 as (total&Ht&->). unfold PeekPost. rewrite len_slice by lia.
+    split; auto. split; auto. split; auto. split; [lia|]. split.
+    - intros He. exfalso. unfold cancel_rerr in He. destruct (cancelErr s1) as [[c r]|]; discriminate.
+    - intros He. exfalso. eapply cancel_rerr_not_eof; eauto. }
+  (* via the final offset *)
+  match goal with |- context [match ?X with Some d => (s1, d, EEOF, false) | None => _ end] => destruct X as [d2|] eqn:Evf end.
+  { assert (Hd2 : exists total, 0 <= total < n /\ d2 = slice S (rpos s1) total /\ fc_final s1 = true /\ rpos s1 + total = finalOffset s1).
+    { destruct (Z.ltb_spec (finalOffset s1) (rpos s1 + n)); [|discriminate].
+      destruct (Z.leb_spec (finalOffset s1 - rpos s1 - crest s1) 0).
+      - inversion Evf. destruct (Z.le_gt_cases (finalOffset s1 - rpos s1) 0).
+        + exists 0. rewrite dtake_nonpos by lia. split; [lia|]. split; [reflexivity|].
+          destruct (fc_final s1); [split; auto; lia|lia].
+        + exists (finalOffset s1 - rpos s1). rewrite dtake_slice by lia. split; [lia|]. split; [reflexivity|].
+          destruct (fc_final s1); [split; auto; lia|lia].
+      - destruct (Peek (sorter s1) (rpos s1 + crest s1) (finalOffset s1 - rpos s1 - crest s1)) as [d3|] eqn:EP3; [|discriminate].
+        destruct (Peek_spec S _ _ _ _ (v_inv _ R) EP3 ltac:(lia)) as (Hd3&Hcov3). inversion Evf.
+        exists (finalOffset s1 - rpos s1). split; [lia|]. split.
+        + rewrite Hd3. rewrite <- slice_app by lia. f_equal. lia.
+        + specialize (Hcov3 (finalOffset s1 - 1) ltac:(lia)). apply (v_below _ R) in Hcov3.
+          destruct (fc_final s1); [split; auto; lia|lia]. }
+    destruct Hd2 as (total&Ht&->&Hf&Hfin). unfold PeekPost. rewrite len_slice by lia.
+    split; auto. split; auto. split; auto. split; [lia|]. split; [discriminate|]. intros _. auto. }
+  apply Htail. discriminate.
+Qed.
+
+Theorem Peek_spec_stream s n s' d e bug : RSInv s -> 0 <= n -> PeekS s n = (s', d, e, bug) ->
+  bug = false /\ RSInv s' /\ rpos s' = rpos s /\ d = slice S (rpos s) (len d) /\ len d <= n /\
+  (e = ENil -> len d = n) /\ (e = EEOF -> fc_final s' = true /\ rpos s + len d = finalOffset s').
+Proof.
+  intros R Hn H. destruct (Peek_state _ _ _ _ _ _ R H) as (Hb&R'&Hrp&Hf&Hfin).
+  split; auto. split; auto. split; auto.
+  unfold PeekS in H. destruct (Z.leb_spec n 0).
+  { inversion H; subst. rewrite len_nil. repeat split; auto; try lia; discriminate. }
+  rewrite peekImpl_unfold in H.
+  destruct (curIsLast s && (match cur s with [] => true | _ => false end)) eqn:E1.
+  { apply andb_prop in E1 as [El Ec]. apply isnil_true in Ec.
+    destruct (RSInv_last _ R El) as (A&B). pose proof (v_pos _ R) as P. unfold crest in P. rewrite Ec in P.
+    inversion H; subst. rewrite len_nil. repeat split; auto; try lia; discriminate. }
+  destruct (cancelledLocally s || remoteEffective s) eqn:E2.
+  { inversion H; subst. rewrite len_nil. split; [reflexivity|]. split; [lia|]. split.
+    - intros He. exfalso. unfold cancel_rerr in He. destruct (cancelErr s') as [[c r]|]; discriminate.
+    - intros He. exfalso. eapply cancel_rerr_not_eof; eauto. }
+  apply orb_false_elim in E2 as [_ Hre].
+  destruct (shutdown s).
+  { inversion H; subst. rewrite len_nil. repeat split; auto; try lia; discriminate. }
+  destruct ((match cur s with [] => true | _ => false end) || (len (cur s) <=? rpif s)) eqn:Edq.
+  - assert (Hc0 : crest s = 0).
+    { apply crest_zero; auto. apply orb_prop in Edq. destruct Edq as [E|E]; [left; apply isnil_true; auto|right; apply Z.leb_le; auto]. }
+    destruct (dequeue s) as [s1 b1] eqn:Ed.
+    destruct (dequeue_spec _ _ _ R Hc0 Ed) as (->&R1&D1&D2&D3&D4&D5&D6&D7&D8&D9&D10&_).
+    assert (Hre1 : remoteEffective s1 = false) by (unfold remoteEffective in *; rewrite D5, D6, D1; auto).
+    pose proof (peekBody_spec s1 n R1 ltac:(lia) Hre1) as HP. rewrite H in HP. unfold PeekPost in HP.
+    destruct HP as (->&_&P3&P4&P5&P6). rewrite <- D1. auto.
+  - pose proof (peekBody_spec s n R ltac:(lia) Hre) as HP. rewrite H in HP. unfold PeekPost in HP.
+    destruct HP as (->&_&P3&P4&P5&P6). auto.
+Qed.
+
+Theorem recv_peek_step w ops r n s' d e bug : 0 <= w < MaxBC -> Forall rvalid ops ->
+  rsrun S (rrun_init w) ops = Some r -> 0 <= n -> PeekS (rr_st r) n = (s', d, e, bug) ->
+  bug = false /\ rpos s' = rpos (rr_st r) /\ d = slice S (rpos (rr_st r)) (len d) /\ len d <= n /\
+  (e = ENil -> len d = n) /\ (e = EEOF -> fc_final s' = true /\ rpos (rr_st r) + len d = finalOffset s').
+Proof.
+  intros Hw Hv Hs Hn HP. destruct (rsrun_RRInv ops _ _ (RRInv_init w Hw) Hv Hs) as [R Ho He].
+  destruct (Peek_spec_stream _ _ _ _ _ _ R Hn HP) as (A&B&C&D&E&F&G).
+  split; [exact A|]. split; [exact C|]. split; [exact D|]. split; [exact E|]. split; [exact F|exact G].
+Qed.
+
 End WithS.
